@@ -146,6 +146,22 @@ def wellformed_levels(st):
     return seen
 
 
+_NEIGHBOURS = []
+
+
+def format_neighbours():
+    import unicodedata
+    if not _NEIGHBOURS:
+        for cp in range(128, 0x110000):
+            if 0xD800 <= cp <= 0xDFFF:
+                continue
+            c = chr(cp)
+            forms = (c.lower(), c.upper(), c.casefold(), unicodedata.normalize('NFKC', c), unicodedata.normalize('NFKD', c)[:1])
+            if any(f in (u'1', u'I', u'i', u'A', u'a') for f in forms) or unicodedata.digit(c, None) == 1:
+                _NEIGHBOURS.append(c)
+    return _NEIGHBOURS
+
+
 def gen_specs(rng, n):
     specs = []
     for _ in range(n):
@@ -156,8 +172,10 @@ def gen_specs(rng, n):
             if pos == 'start': pre = u''
             if pos == 'end': suf = u''
             specs.append(pre + rng.choice(FORMATS) + suf)
-        else:
+        elif r < 0.92:
             specs.append(rng.choice(BULLETS))
+        else:
+            specs.append(rng.choice(format_neighbours()) + rng.choice([u'', u')', u'.']))
     return specs
 
 
@@ -264,6 +282,10 @@ def run(chk, replay=None):
     # every printable ASCII character (and a sample of others) alone and after a bullet-ish prefix: which characters count
     # as format characters is part of the property
     singles = [chr(c) for c in range(32, 127)] + [u'é', u'Ⅰ', u'ⅰ', u'１', u'Ａ', u'𝟏', u'α', u'І', u'і', u'А', u'а']
+    # the Unicode neighbours of the five format characters: everything whose lower / upper / case-folded / compatibility
+    # form is one of 1 I i A a (dotless and dotted i, full-width and mathematical letters, Roman numerals) and every
+    # other digit one.  The property says: numbering iff one of the five ASCII characters occurs.
+    singles += [c for c in format_neighbours() if c not in singles]
     for c in singles:
         cases.append(('list', u'L', [c, u'-' + c], [c, u'-' + c], u'1cm', True, True))
     N = 6000 if thorough else 1500
